@@ -4,7 +4,7 @@
    chaintime's FirstSlotOfEpoch, are transcribed by gotrans on every run; the hand-written
    window_of (guarded form), about which C15_window is proved, computes the same triple. *)
 From Coq Require Import ZArith NArith.
-From Verif Require Import Lib.Base Lib.GoInt Gen.Pure_Extracted Model.C15_Sync Proofs.GenTie Proofs.GenTie2.
+From Verif Require Import Lib.Base Lib.GoInt Gen.Pure_C03 Gen.Pure_C15 Model.C15_Sync Proofs.TieLib Proofs.Tie_C15.
 Local Open Scope Z_scope.
 
 Theorem C15_tie_first_epoch_of_period : forall (p : params) (period : N),
